@@ -97,6 +97,8 @@ type World struct {
 	extra  map[string]int
 	// hooks for derived engines
 	beforeOp func(i int, op *Op)
+	seams    *seamCounters
+	counted  map[string]int
 }
 
 const (
